@@ -846,6 +846,9 @@ func (e *SpecEnv) callExpr(n *ast.CallExpr) Value {
 	case "atype":
 		r := e.refTerm(e.eval(arg(0)), n)
 		return IntV{T: atypeOf(ex.st, r), W: 64, Signed: true}
+	case "scratchLen": // bytes currently held by a collate.Buffer (ghost)
+		r := e.refTerm(e.eval(arg(0)), n)
+		return IntV{T: Select(e.cur.H(ex, "collateBuf.len", ArrSort(SRef, SInt)), r), W: 64, Signed: true}
 	case "blen": // extent (in bytes) of a byte object
 		r := e.refTerm(e.eval(arg(0)), n)
 		return IntV{T: Select(e.cur.H(ex, "blen", ArrSort(SRef, SInt)), r), W: 64, Signed: true}
@@ -881,7 +884,7 @@ func (e *SpecEnv) callExpr(n *ast.CallExpr) Value {
 		skip := map[string]bool{}
 		for _, a := range n.Args {
 			if bl, ok := a.(*ast.BasicLit); ok {
-				skip[strings.Trim(bl.Value, "\"")] = true
+				skip[ex.canonHeap(strings.Trim(bl.Value, "\""))] = true
 			}
 		}
 		saved := e.assigned
@@ -908,7 +911,7 @@ func (e *SpecEnv) callExpr(n *ast.CallExpr) Value {
 		o := e.refTerm(e.eval(arg(0)), n)
 		skip := map[string]bool{}
 		for _, a := range n.Args[1:] {
-			skip[strings.Trim(exprString(a), "\"")] = true
+			skip[ex.canonHeap(strings.Trim(exprString(a), "\""))] = true
 		}
 		var names []string
 		for h := range ex.heapSorts {
@@ -1147,7 +1150,9 @@ func (e *SpecEnv) frame(objs []Term) Term {
 	oldAl := e.old.H(ex, "alloc", ArrSort(SRef, SBool))
 	var parts []Term
 	for _, h := range names {
-		if h == "alloc" || h == "atype" || h == "pooled" {
+		if h == "alloc" || h == "atype" || h == "pooled" || strings.HasPrefix(h, "collateBuf.") {
+			// collateBuf.*: ghost state of the codec's collate.Buffer - scratch of the codec, like
+			// its src field, outside what frame() speaks about (stated with C15/C17)
 			continue
 		}
 		srt := ex.heapSorts[h]
